@@ -90,6 +90,19 @@ def generate(rng, tier):
                 steps.append({"x": rng.choice(xs + [_rand(rng, k)]), "y": rng.choice(ys + [_rand(rng, k)]), "xmin": lo, "ymin": ylo, "xmax": hi, "ymax": yhi,
                               "tol": tol if rng.random() < 0.8 else tol * 2, "how": rng.choice(["inner", "inner", "outer"])})
         cases.append({"kind": "pibseq", "steps": steps, "family": "point_in_bounds/bounds-object-changed-in-place"})
+    # bounds and values that no binary64 number represents: integers beyond 2^53 one apart, fractions like 1/3, values off the bound by far
+    # less than a float's resolution - the helpers compare and select, so every answer is exact whatever the number type
+    for _ in range(max(10, n // 4)):
+        if rng.random() < 0.5:
+            hi = F(2 ** rng.choice([53, 54, 60, 80]) + rng.choice([1, 3, 5, 7])); lo = rng.choice([F(0), -hi, hi - rng.choice([2, 4, 1000])]); d = F(rng.choice([1, 1, 2, 3]))
+        else:
+            hi = F(rng.randint(1, 50), rng.choice([3, 7, 9, 11])); lo = hi - F(rng.randint(0, 40), rng.choice([3, 7, 13])); d = F(1, 10 ** rng.choice([18, 20, 30]))
+        tol = rng.choice([F(0), d / 4, d * 3])
+        for v in (hi + d, hi - d, lo - d, lo + d, hi, lo):
+            cases.append({"kind": "check", "v": v, "lo": lo, "hi": hi, "family": "beyond-float-resolution/check"})
+            cases.append({"kind": "tol", "v": v, "lo": lo, "hi": hi, "tol": tol, "family": "beyond-float-resolution/tol"})
+            cases.append({"kind": "con", "v": v, "lo": lo, "hi": hi, "family": "beyond-float-resolution/constrain"})
+        cases.append({"kind": "pib", "x": hi + d, "y": F(1), "xmin": lo, "ymin": F(0), "xmax": hi, "ymax": F(2), "tol": tol, "family": "beyond-float-resolution/point_in_bounds"})
     # consecutive calls on different numbers with equal hashes (hash(-1) == hash(-2) for ints, floats and Fractions; hash(n) == hash(n +
     # 2^61 - 1)): every answer belongs to the arguments of its own call
     P = 2**61 - 1
